@@ -24,7 +24,23 @@ fn clean(s: &str) -> String {
 /// an edit that should not change the version's place in the order, or moves it up a little
 fn derive(tokens: &[String], kind: u8, sel: u16) -> Vec<String> {
     let mut v = tokens.to_vec();
-    match kind % 12 {
+    match kind % 18 {
+        // (12-17: edits that move the version a little: a bare modifier at the end, the last
+        // token exchanged for a modifier or dropped, text behind the revision, a small number)
+        12 => v.push(vergen::MODIFIERS[idx(sel, 5)].into()),
+        13 => {
+            v.pop();
+            v.push(vergen::MODIFIERS[idx(sel, 5)].into());
+        }
+        14 => {
+            v.pop();
+        }
+        15 => v.push(format!("nb{}.{}", sel % 3, sel % 7)),
+        16 => v.push(((sel % 3) + 1).to_string()),
+        17 => {
+            let k = idx(sel, v.len() + 1);
+            v.insert(k, vergen::MODIFIERS[(sel % 5) as usize].into());
+        }
         0 => v.push(".0".into()),
         1 => v.push("_0".into()),
         2 => v.push("pl".into()),
@@ -237,7 +253,7 @@ pub fn check(t: &Triple, obs: &mut Obs) -> Result<(), String> {
     if strict_chain {
         obs.class("strict-transitivity-antecedent");
     }
-    if xs.iter().any(|s| crate::models::dewey::longest_digit_run(s) > 18) {
+    if xs.iter().any(|s| !crate::models::dewey::numbers_in_domain(s)) {
         obs.class("digit-run-over-18");
     }
     if xs.iter().any(|s| !s.is_ascii()) {
